@@ -66,6 +66,8 @@ impl VarFile {
     pub fn sync_all(&mut self) -> Result<()> {
         #[cfg(abyssiniandb_verif)]
         super::super::verif_probe::trace(&self.buf_file.name(), "sync_all");
+        #[cfg(abyssiniandb_verif)]
+        self.io_mark('S');
         self.buf_file.sync_all()
     }
     //
@@ -73,11 +75,15 @@ impl VarFile {
     pub fn sync_data(&mut self) -> Result<()> {
         #[cfg(abyssiniandb_verif)]
         super::super::verif_probe::trace(&self.buf_file.name(), "sync_data");
+        #[cfg(abyssiniandb_verif)]
+        self.io_mark('D');
         self.buf_file.sync_data()
     }
     //
     #[inline]
     pub fn _clear(&mut self) -> Result<()> {
+        #[cfg(abyssiniandb_verif)]
+        self.io_mark('c');
         self.buf_file.clear()
     }
     //
@@ -135,20 +141,28 @@ impl VarFile {
     pub fn set_file_length<T>(&mut self, file_length: Offset<T>) -> Result<()> {
         #[cfg(abyssiniandb_verif)]
         super::super::verif_probe::trace(&self.buf_file.name(), "set_len");
+        #[cfg(abyssiniandb_verif)]
+        self.io_set_len(file_length.as_value());
         self.buf_file.set_len(file_length.into())
     }
     #[inline]
     pub fn read_fill_buffer(&mut self) -> Result<()> {
+        #[cfg(abyssiniandb_verif)]
+        self.io_mark('F');
         self.buf_file.read_fill_buffer()
     }
     //
     #[inline]
     pub fn _write_all_small(&mut self, buf: &[u8]) -> Result<()> {
+        #[cfg(abyssiniandb_verif)]
+        self.io_rwv('w', buf.len() as u64, "write_all_small");
         self.buf_file.write_all_small(buf)
     }
     //
     #[inline]
     pub fn _write_zero<T>(&mut self, size: Size<T>) -> Result<()> {
+        #[cfg(abyssiniandb_verif)]
+        self.io_rwv('w', size.as_value() as u64, "write_zero");
         self.buf_file.write_zero(size.into())
     }
     #[inline]
@@ -156,6 +170,8 @@ impl VarFile {
         let start_offset = self.seek_position()?;
         if offset > start_offset {
             let size = offset - start_offset;
+            #[cfg(abyssiniandb_verif)]
+            self.io_rwv('w', size.as_value() as u64, "write_zero");
             self.buf_file.write_zero(size.into())
         } else {
             Ok(())
@@ -208,9 +224,46 @@ impl VarFile {
     */
 }
 
+// fine io-trace of the verification probe: one event per call into `buf_file`.
+#[cfg(abyssiniandb_verif)]
+impl VarFile {
+    #[inline]
+    fn io_id(&self) -> usize {
+        &self.buf_file as *const BufFile as usize
+    }
+    #[inline]
+    fn io_rwv(&self, kind: char, len: u64, method: &'static str) {
+        if super::super::verif_probe::io_on() {
+            super::super::verif_probe::io_rw(&self.buf_file.name(), self.io_id(), kind, len, method);
+        }
+    }
+    #[inline]
+    fn io_seek(&self, new_pos: Option<u64>) {
+        super::super::verif_probe::io_seek(&self.buf_file.name(), self.io_id(), new_pos);
+    }
+    #[inline]
+    fn io_set_len(&self, len: u64) {
+        if super::super::verif_probe::io_on() {
+            super::super::verif_probe::io_set_len(&self.buf_file.name(), self.io_id(), len);
+        }
+    }
+    #[inline]
+    fn io_mark(&self, kind: char) {
+        if super::super::verif_probe::io_on() {
+            super::super::verif_probe::io_mark(&self.buf_file.name(), self.io_id(), kind);
+        }
+    }
+}
+
 impl Read for VarFile {
     #[inline]
     fn read(&mut self, buf: &mut [u8]) -> Result<usize> {
+        #[cfg(abyssiniandb_verif)]
+        if super::super::verif_probe::io_on() {
+            let r = self.buf_file.read(buf);
+            self.io_rwv('r', *r.as_ref().unwrap_or(&0) as u64, "read");
+            return r;
+        }
         self.buf_file.read(buf)
     }
 }
@@ -220,12 +273,20 @@ impl Write for VarFile {
     fn write(&mut self, buf: &[u8]) -> Result<usize> {
         #[cfg(abyssiniandb_verif)]
         super::super::verif_probe::trace_write(&self.buf_file.name());
+        #[cfg(abyssiniandb_verif)]
+        if super::super::verif_probe::io_on() {
+            let r = self.buf_file.write(buf);
+            self.io_rwv('w', *r.as_ref().unwrap_or(&0) as u64, "write");
+            return r;
+        }
         self.buf_file.write(buf)
     }
     #[inline]
     fn flush(&mut self) -> Result<()> {
         #[cfg(abyssiniandb_verif)]
         super::super::verif_probe::trace(&self.buf_file.name(), "flush");
+        #[cfg(abyssiniandb_verif)]
+        self.io_mark('f');
         self.buf_file.flush()
     }
 }
@@ -233,6 +294,12 @@ impl Write for VarFile {
 impl Seek for VarFile {
     #[inline]
     fn seek(&mut self, pos: SeekFrom) -> Result<u64> {
+        #[cfg(abyssiniandb_verif)]
+        if super::super::verif_probe::io_on() {
+            let r = self.buf_file.seek(pos);
+            self.io_seek(r.as_ref().ok().copied());
+            return r;
+        }
         self.buf_file.seek(pos)
     }
 }
@@ -240,30 +307,44 @@ impl Seek for VarFile {
 impl rabuf::SmallRead for VarFile {
     #[inline]
     fn read_u8(&mut self) -> Result<u8> {
+        #[cfg(abyssiniandb_verif)]
+        self.io_rwv('r', 1, "read_u8");
         self.buf_file.read_u8()
     }
     #[inline]
     fn read_u16_le(&mut self) -> Result<u16> {
+        #[cfg(abyssiniandb_verif)]
+        self.io_rwv('r', 2, "read_u16_le");
         self.buf_file.read_u16_le()
     }
     #[inline]
     fn read_u32_le(&mut self) -> Result<u32> {
+        #[cfg(abyssiniandb_verif)]
+        self.io_rwv('r', 4, "read_u32_le");
         self.buf_file.read_u32_le()
     }
     #[inline]
     fn read_u64_le(&mut self) -> Result<u64> {
+        #[cfg(abyssiniandb_verif)]
+        self.io_rwv('r', 8, "read_u64_le");
         self.buf_file.read_u64_le()
     }
     #[inline]
     fn read_max_8_bytes(&mut self, size: usize) -> Result<u64> {
+        #[cfg(abyssiniandb_verif)]
+        self.io_rwv('r', size as u64, "read_max_8_bytes");
         self.buf_file.read_max_8_bytes(size)
     }
     #[inline]
     fn read_exact_small(&mut self, buf: &mut [u8]) -> Result<()> {
+        #[cfg(abyssiniandb_verif)]
+        self.io_rwv('r', buf.len() as u64, "read_exact_small");
         self.buf_file.read_exact_small(buf)
     }
     #[inline]
     fn read_exact_maybeslice(&mut self, size: usize) -> Result<MaybeSlice> {
+        #[cfg(abyssiniandb_verif)]
+        self.io_rwv('r', size as u64, "read_exact_maybeslice");
         self.buf_file.read_exact_maybeslice(size)
     }
 }
@@ -273,48 +354,64 @@ impl rabuf::SmallWrite for VarFile {
     fn write_u8(&mut self, val: u8) -> Result<()> {
         #[cfg(abyssiniandb_verif)]
         super::super::verif_probe::trace_write(&self.buf_file.name());
+        #[cfg(abyssiniandb_verif)]
+        self.io_rwv('w', 1, "write_u8");
         self.buf_file.write_u8(val)
     }
     #[inline]
     fn write_u16_le(&mut self, val: u16) -> Result<()> {
         #[cfg(abyssiniandb_verif)]
         super::super::verif_probe::trace_write(&self.buf_file.name());
+        #[cfg(abyssiniandb_verif)]
+        self.io_rwv('w', 2, "write_u16_le");
         self.buf_file.write_u16_le(val)
     }
     #[inline]
     fn write_u32_le(&mut self, val: u32) -> Result<()> {
         #[cfg(abyssiniandb_verif)]
         super::super::verif_probe::trace_write(&self.buf_file.name());
+        #[cfg(abyssiniandb_verif)]
+        self.io_rwv('w', 4, "write_u32_le");
         self.buf_file.write_u32_le(val)
     }
     #[inline]
     fn write_u64_le(&mut self, val: u64) -> Result<()> {
         #[cfg(abyssiniandb_verif)]
         super::super::verif_probe::trace_write(&self.buf_file.name());
+        #[cfg(abyssiniandb_verif)]
+        self.io_rwv('w', 8, "write_u64_le");
         self.buf_file.write_u64_le(val)
     }
     #[inline]
     fn write_u64_le_slice(&mut self, val_slice: &[u64]) -> Result<()> {
         #[cfg(abyssiniandb_verif)]
         super::super::verif_probe::trace_write(&self.buf_file.name());
+        #[cfg(abyssiniandb_verif)]
+        self.io_rwv('w', 8 * val_slice.len() as u64, "write_u64_le_slice");
         self.buf_file.write_u64_le_slice(val_slice)
     }
     #[inline]
     fn write_u64_le_slice2(&mut self, val_slice1: &[u64], val_slice2: &[u64]) -> Result<()> {
         #[cfg(abyssiniandb_verif)]
         super::super::verif_probe::trace_write(&self.buf_file.name());
+        #[cfg(abyssiniandb_verif)]
+        self.io_rwv('w', 8 * (val_slice1.len() + val_slice2.len()) as u64, "write_u64_le_slice2");
         self.buf_file.write_u64_le_slice2(val_slice1, val_slice2)
     }
     #[inline]
     fn write_all_small(&mut self, buf: &[u8]) -> Result<()> {
         #[cfg(abyssiniandb_verif)]
         super::super::verif_probe::trace_write(&self.buf_file.name());
+        #[cfg(abyssiniandb_verif)]
+        self.io_rwv('w', buf.len() as u64, "write_all_small");
         self.buf_file.write_all_small(buf)
     }
     #[inline]
     fn write_zero(&mut self, size: u32) -> Result<()> {
         #[cfg(abyssiniandb_verif)]
         super::super::verif_probe::trace_write(&self.buf_file.name());
+        #[cfg(abyssiniandb_verif)]
+        self.io_rwv('w', size as u64, "write_zero");
         self.buf_file.write_zero(size)
     }
 }
@@ -655,11 +752,15 @@ impl VarFile {
 impl ReadVu64 for VarFile {
     #[inline]
     fn read_one_byte(&mut self) -> Result<u8> {
+        #[cfg(abyssiniandb_verif)]
+        self.io_rwv('r', 1, "read_u8");
         self.buf_file.read_u8()
     }
     #[inline]
     fn read_exact_max8byte(&mut self, buf: &mut [u8]) -> Result<()> {
         debug_assert!(buf.len() <= 8, "buf.len(): {} <= 8", buf.len());
+        #[cfg(abyssiniandb_verif)]
+        self.io_rwv('r', buf.len() as u64, "read_exact_small");
         self.buf_file.read_exact_small(buf)
     }
     /// reads `vu64` bytes and decods it to `u64`
@@ -691,12 +792,16 @@ impl ReadVu64 for VarFile {
             )),
         }
         */
+        #[cfg(abyssiniandb_verif)]
+        self.io_rwv('r', 1, "read_u8");
         let byte_1st = self.buf_file.read_u8()?;
         if byte_1st < 128 {
             Ok(byte_1st as u64)
         } else {
             let len = vu64::decoded_len(byte_1st);
             let follow_len = len as usize - 1;
+            #[cfg(abyssiniandb_verif)]
+            self.io_rwv('r', follow_len as u64, match follow_len { 1 => "read_u8", 2 => "read_u16_le", _ => "read_max_8_bytes" });
             let max_8_bytes = match follow_len {
                 0 => 0,
                 1 => self.buf_file.read_u8()? as u64,
@@ -880,6 +985,8 @@ impl VarFile {
         offset: PieceOffset<T>,
     ) -> Result<PieceOffset<T>> {
         self.seek_from_start(offset)?;
+        #[cfg(abyssiniandb_verif)]
+        self.io_rwv('r', 1, "read_u8");
         let byte_1st = self.buf_file.read_u8()?;
         let piece_size_len = vu64::decoded_len(byte_1st);
         if piece_size_len > 1 {
@@ -894,6 +1001,8 @@ impl VarFile {
         offset: PieceOffset<T>,
     ) -> Result<PieceOffset<T>> {
         self.seek_from_start(offset)?;
+        #[cfg(abyssiniandb_verif)]
+        self.io_rwv('r', 1, "read_u8");
         let byte_1st = self.buf_file.read_u8()?;
         let piece_size_len = vu64::decoded_len(byte_1st);
         if piece_size_len > 1 {
